@@ -185,6 +185,15 @@ def crashDir (s : Scn) (ro : List (Path × Path)) (dord : List Path) (fails : Na
 def finalDir (s : Scn) (ro : List (Path × Path)) (dord : List Path) (fails : Nat → Bool) : Dir :=
   applyAll (oldDir s) (trace s ro dord fails)
 
+/-- A run in which the write of its `j`-th temp file fails (ENOSPC, EFBIG, EIO …), `j < nNew + nSide`.
+    `j < nNew`: `writeShard` of shard `j` fails: its temp file stays behind incomplete, `buildError` is set, no further
+    shard is written and `Finish` removes the temp files of the shards that did finish.
+    `j ≥ nNew`: `JsonMarshalRepoMetaTemp` fails for a sidecar: it removes its own temp file and `Finish` returns the
+    error at once, leaving the other temp files behind.  Either way `Finish` returns an error before any rename. -/
+def writeFailOps (s : Scn) (j : Nat) : List Op :=
+  (tempOps s).take (2 * j) ++ [Op.create (.tmp j)] ++
+  (if j < s.nNew then (List.range j).map (fun i => Op.remove (.tmp i)) else [Op.remove (.tmp j)])
+
 /-! ### the loader's view -/
 
 /-- simple shard `n` as the searcher sees it: the shard's content and the sidecar that overrides its metadata -/
